@@ -95,6 +95,11 @@ def jobs_for(pid, rep):
                 if not flush:
                     csvo["flush_on_insert"] = False
                 add(ops, i % 2, {"io": flush, "csv": csvo, "theme": theme, "nostore": not flush})
+        # access mode "w+": the file is truncated when opened (Python's meaning of the mode), never afterwards
+        for i in range(40 if thorough else 10):
+            g = gen.Gen(rng.randrange(1 << 30), focus={"insert": 6, "remove": 4, "update": 4, "drop": 1, "repeat": 0.3}, handles=0.1)
+            add(g.history(g.r.choice([8, 14]), p_read=0.3), i % 2, {"io": True, "mode": "w+", "prefill": True,
+                                                                     "prefill_points": prefill_points(g.r.choice([0, 2]), g)})
         # large files: early-exit reads before appends (file position left mid-file, > 8 KiB)
         for i in range(6 if thorough else 2):
             g = gen.Gen(rng.randrange(1 << 30), focus={"insert": 8, "remove": 1, "update": 1}, handles=0.0)
@@ -123,9 +128,21 @@ def jobs_for(pid, rep):
                 ops.append({"op": "insert", "p": g.point(), "m": concretise.NONE, "compact": 0})
                 ops.append({"op": "contains", "q": g.atom(), "m": concretise.NONE})
                 ops.append({"op": "insert_multiple", "ps": [g.point(), g.point()], "m": concretise.NONE, "bad": 0})
+            # an update whose callable fails part-way (the scan is aborted), directly followed by inserts
+            ops.append({"op": "update", "q": {"k": "meas", "key": 0, "key2": 0, "mf": 0, "op": "noop", "v": 0, "tf": 0}, "m": concretise.NONE,
+                        "u": {"tk": 0, "tv": 0, "mk": 0, "mv": 0, "tgk": 1, "tgv": [2, -2, -2], "fdk": 0, "fdv": [], "utg": [], "ufd": []},
+                        "fail": size // 2})
+            ops.append({"op": "insert", "p": g.point(), "m": concretise.NONE, "compact": 0})
+            ops.append({"op": "insert", "p": g.point(), "m": concretise.NONE, "compact": 0})
             if pid == "C12":
                 ops.append({"op": "remove", "q": g.atom(), "m": concretise.NONE})
             add(ops, i % 2, {"io": True, "prefill": True, "prefill_points": prefill_points(size, g)})
+        if pid == "C12":
+            # append-only access modes: every stored point must be on file when the insert returns
+            for i in range(30 if thorough else 8):
+                g = gen.Gen(rng.randrange(1 << 30), focus={"insert": 10, "insert_multiple": 4, "remove": 0, "update": 0, "update_all": 0, "drop": 0, "remove_all": 0, "reindex": 0}, handles=0.0)
+                ops = [a for a in g.history(12, p_read=0.0) if a["op"] in ("insert", "insert_multiple")]
+                add(ops, 0, {"io": True, "mode": "a", "prefill": True, "prefill_points": prefill_points(g.r.choice([0, 3]), g)})
     elif pid == "C15":
         nh = 1200 if thorough else 240
         for i in range(nh):
